@@ -592,6 +592,26 @@ def run(chk) -> None:
             break
     if writer is None:
         raise AnchorError(f"C17.R1: payload producer `{ast.unparse(pay)[:70]}` is not a JSON writer this rule knows")
+    # escapes applied on top of the writer: <json>.translate(TABLE) / .replace("c", "\\uXXXX")
+    escaped: set[str] = set()
+    for n in pcalls:
+        if isinstance(n.func, ast.Attribute) and n.func.attr == "translate" and len(n.args) == 1:
+            tbl = n.args[0]
+            if isinstance(tbl, ast.Name):
+                tbl = next((a.value for a in sm.tree.body if isinstance(a, (ast.Assign, ast.AnnAssign)) and a.value is not None and any(isinstance(t, ast.Name) and t.id == tbl.id for t in (a.targets if isinstance(a, ast.Assign) else [a.target]))), None)
+            if not isinstance(tbl, ast.Dict):
+                raise AnchorError("C17.R1: translate() table of the payload is not a dict literal")
+            for k, v in zip(tbl.keys, tbl.values):
+                ch = chr(k.value) if isinstance(k, ast.Constant) and isinstance(k.value, int) else k.value if isinstance(k, ast.Constant) and isinstance(k.value, str) and len(k.value) == 1 else None
+                if ch is None or not (isinstance(v, ast.Constant) and isinstance(v.value, str)):
+                    raise AnchorError("C17.R1: translate() table entry is not `char: string`")
+                if not set(v.value) & set(SPLITLINES):
+                    escaped.add(ch)
+        if isinstance(n.func, ast.Attribute) and n.func.attr == "replace" and len(n.args) == 2 and all(isinstance(a, ast.Constant) and isinstance(a.value, str) for a in n.args):
+            if len(n.args[0].value) == 1 and not set(n.args[1].value) & set(SPLITLINES):
+                escaped.add(n.args[0].value)
+    if escaped:
+        writer = (writer[0] + " + escapes " + ",".join(f"U+{ord(ch):04X}" for ch in sorted(escaped)), "".join(ch for ch in writer[1] if ch not in escaped))
     boundaries, how = _httpx_newlines() if c.line_helper is None else _helper_newlines(c.line_helper)
     chk.ob("C17.R1", f"the payload writer ({writer[0]}) emits the payload on one line (no indentation requested)", "\n" not in writer[1], m=sm, node=y, fn=fn, instance="payload-single-line",
            reason="an indented JSON document spans several lines; the client parses the first `data:` line alone")
@@ -992,6 +1012,9 @@ TWINS = [
     Twin("benign: concatenated frame", _S, 'yield f"id: {sequence}\\ndata: {payload}\\n\\n"', 'yield "id: " + str(sequence) + "\\n" + "data: " + payload + "\\n\\n"', None),
     Twin("benign: len() slice", _C, "current_id = stripped[3:].strip()", 'current_id = stripped[len("id:"):].strip()', None),
     Twin("benign: inlined payload", _S, 'yield f"id: {sequence}\\ndata: {payload}\\n\\n"', 'yield f"id: {sequence}\\ndata: {envelope.model_dump_json()}\\n\\n"', None),
+    Twin("benign: removeprefix", _C, "current_id = stripped[3:].strip()", 'current_id = stripped.removeprefix("id:").strip()', None),
+    Twin("benign: server escapes the separators JSON leaves raw", _S, "payload = envelope.model_dump_json()",
+         'payload = envelope.model_dump_json().replace("\\x85", "\\\\u0085").replace("\\u2028", "\\\\u2028").replace("\\u2029", "\\\\u2029")', None),
     # R2 cursor
     Twin("cursor advanced on the id line", _C, "current_id = stripped[3:].strip()\n", "current_id = stripped[3:].strip()\n                                        last_sequence = int(current_id)\n", "C17.R2"),
     Twin("reconnect from the initial cursor", _C, '"after_sequence": str(last_sequence),', '"after_sequence": str(after_sequence),', "C17.R2"),
@@ -1013,6 +1036,6 @@ TWINS = [
     Twin("subscribe forgets the cursor", _S, "                run_id,\n                after_sequence=after_sequence,  # type: ignore[arg-type]\n", "                run_id,\n", "C17.R4"),
     Twin("server shifts the cursor", _S, "                after_sequence = int(after_sequence_str)\n", "                after_sequence = int(after_sequence_str) + 1\n", "C17.R4"),
     Twin("id is a running counter, not the stored sequence", _S, "                yield stored_event.sequence, envelope\n", "                yield after_sequence + 1, envelope\n", "C17.R4"),
-    Twin("benign: positional run id kept, keyword cursor", _S, "                yield stored_event.sequence, envelope\n", "                seq = stored_event.sequence\n                yield seq, envelope\n", None),
-    Twin("benign: envelope local renamed", _S, "                    payload = envelope.model_dump_json()\n", "                    payload = envelope.model_dump_json(by_alias=False)\n", None),
+    Twin("benign: local for the stored sequence", _S, "                yield stored_event.sequence, envelope\n", "                seq = stored_event.sequence\n                yield seq, envelope\n", None),
+    Twin("benign: extra keyword on the JSON writer", _S, "                    payload = envelope.model_dump_json()\n", "                    payload = envelope.model_dump_json(by_alias=False)\n", None),
 ]
